@@ -1,5 +1,6 @@
 """C06: the stepping evaluator (compiler::clvm::run / run_step / choose_path / ...) against the
 consensus evaluator's own code (clvmr traverse_path from clvmr's MIR) and a reference for core operators."""
+import itertools
 import z3
 from mirsym.driver import Harness, sym_bytes, conc_bytes, ev_bytes, ev, slice_of, unsigned_of
 from mirsym.engine import (Cell, Ref, Some, NONE, Enum, Struct, Vec, Int, Big, Opaque, mkint, PathEnd, concrete)
@@ -202,3 +203,157 @@ class PathLookup(Harness):
 
     def required_witnesses(self, tier):
         return ['consensus_ok', 'consensus_err']
+
+
+
+# ---------------------------------------------------------------- whole programs over the core operators
+from harness.codec import build_tree, json_tree, length_tuples, tree_eq
+from harness.convert import tls
+
+ALPHABET = [1, 2, 3, 4, 5, 6, 7, 8, 9, 16, 17]
+
+
+def prog_shapes(nleaves):
+    """program shapes: binary trees whose leaves are 'A' (one symbolic byte from the alphabet) or 'N' (nil)"""
+    for sh in shapes(nleaves):
+        yield sh
+
+
+def label_leaves(sh, nil_mask, ctr):
+    if sh == 'L':
+        i = next(ctr)
+        return 'N' if nil_mask & (1 << i) else 'A'
+    return [label_leaves(sh[0], nil_mask, ctr), label_leaves(sh[1], nil_mask, ctr)]
+
+
+def build_prog(lsh, atoms):
+    if lsh == 'A':
+        return atom_node([next(atoms)])
+    if lsh == 'N':
+        return nil_node()
+    return pair_node(build_prog(lsh[0], atoms), build_prog(lsh[1], atoms))
+
+
+def prog_json(lsh, atoms):
+    if lsh == 'A':
+        return [next(atoms)]
+    if lsh == 'N':
+        return []
+    return {'p': [prog_json(lsh[0], atoms), prog_json(lsh[1], atoms)]}
+
+
+def count_a(lsh):
+    if lsh == 'A':
+        return 1
+    if lsh == 'N':
+        return 0
+    return count_a(lsh[0]) + count_a(lsh[1])
+
+
+class CoreEval(Harness):
+    """every program tree of the stated size over {q,a,i,c,f,r,l,x,=,+,-,paths,nil}: the stepping evaluator (run) vs the
+    consensus evaluator (clvmr run_program, executed from clvmr's own MIR) on the same environment"""
+    name = 'core_eval'
+    prop = 'C06'
+    kernel = 'run_both_tree'
+    with_clvmr = True
+    functions = ['compiler::clvm::run', 'run_step', 'combine', 'eval_args', 'translate_head', 'atom_value', 'truthy', 'choose_path',
+                 'apply_op', 'generate_argument_refs', 'convert_to_clvm_rs', 'convert_from_clvm_rs', 'prims::prim_map',
+                 'DefaultProgramRunner::run_program', 'clvmr run_program / RunProgramContext::* / ChiaDialect::op / core_ops / more_ops::{op_add,op_subtract} (from clvmr MIR, both as oracle and as the delegate of apply_op)']
+    assumptions = ['program leaves are nil or one byte from {1..9,16,17} (q a i c f r l x = + - and the paths 1..9,16,17); environment leaves are arbitrary single bytes',
+                   'the program is presented to the stepping evaluator as convert_from_clvm_rs yields it (new integer mode)',
+                   'non-terminating programs end as `bound` (loop / depth bounds), cost limits are off (max_cost 0)']
+    outside = 'larger programs; other operators; softfork; cost'
+    spec = {'quick': dict(leaves=(1, 2, 3), envs=('L', ['L', 'L'])), 'thorough': dict(leaves=(1, 2, 3, 4), envs=('L', ['L', 'L'], ['L', ['L', 'L']]))}
+    loop_bound = 120
+    max_paths = 400000
+
+    def cases(self, tier):
+        sp = self.spec[tier]
+        for k in sp['leaves']:
+            for sh in prog_shapes(k):
+                for mask in range(1 << k):
+                    lsh = label_leaves(sh, mask, itertools.count())
+                    for env in sp['envs']:
+                        yield dict(prog=lsh, env=env)
+
+    def sym_inputs(self, case):
+        import itertools as it
+        na = count_a(case['prog'])
+        ne = count_leaves(case['env'])
+        return dict(atoms=sym_bytes('p', na), env=[sym_bytes('e%d' % i, 1) for i in range(ne)])
+
+    def conc_inputs(self, case, j):
+        return dict(atoms=conc_bytes(j['atoms']), env=[conc_bytes(x) for x in j['env']])
+
+    def inputs_json(self, case, inp, model):
+        return dict(atoms=ev_bytes(model, inp['atoms']), env=[ev_bytes(model, x) for x in inp['env']])
+
+    def run(self, eng, case, inp):
+        eng.env['tls'] = tls(True)
+        for b in inp['atoms']:
+            if b.c is None:
+                eng.assume(z3.Or(*[b.e == v for v in ALPHABET]))
+        prog = build_prog(case['prog'], iter(inp['atoms']))
+        env = build_tree(case['env'], iter(inp['env']))
+        alloc = Ref(Cell(Struct('Allocator', [])))
+        dialect = Struct('ChiaDialect', [mkint(0x0102, 'u32')])       # NO_UNKNOWN_OPS | ENABLE_KECCAK_OPS_OUTSIDE_GUARD
+        cons_r = eng.call('run_program::run_program', [alloc, Ref(Cell(dialect)), prog, env, mkint(0, 'u64')])
+        rp = eng.call('compiler::clvm::convert_from_clvm_rs', [alloc, rich.loc(), prog]).fields[0]
+        re_ = eng.call('compiler::clvm::convert_from_clvm_rs', [alloc, rich.loc(), env]).fields[0]
+        pm = eng.call('compiler::prims::prim_map', [])
+        runner = Cell(Struct('DefaultProgramRunner', []), 'rc')
+        tool_r = eng.call('compiler::clvm::run', [alloc, runner, pm, rp, re_, NONE(), NONE()])
+        tool_t = None
+        if tool_r.variant == 'Ok':
+            cv = eng.call('compiler::clvm::convert_to_clvm_rs', [alloc, tool_r.fields[0]])
+            tool_t = cv.fields[0] if cv.variant == 'Ok' else None
+        return dict(cons=cons_r, tool=tool_r, tool_t=tool_t)
+
+    def obligations(self, eng, case, inp, out):
+        c, t = out['cons'], out['tool']
+        if c.variant != 'Ok':
+            return [('fails_iff_consensus_fails', z3.BoolVal(t.variant != 'Ok'))]
+        if t.variant != 'Ok' or out['tool_t'] is None:
+            return [('value_iff_consensus_value', z3.BoolVal(False))]
+        return [('same_value', tree_eq(c.fields[0].fields[1], out['tool_t']))]
+
+    def output_json(self, eng, case, inp, out, model):
+        if out['tool'].variant != 'Ok' or out['tool_t'] is None:
+            return dict(err=True)
+        return dict(ok=tree_to_json(model, out['tool_t'], ev))
+
+    def native_inputs(self, case, j):
+        return dict(prog=prog_json(case['prog'], iter(j['atoms'])), env=json_tree(case['env'], iter(j['env'])))
+
+    def native_matches(self, case, j, native, predicted):
+        return native.get('stepper') == predicted
+
+    def is_violation(self, case, j, native):
+        return native.get('stepper') != native.get('clvmr')
+
+    def oracle(self, case, j):
+        return 'clvmr run_program on the same program/env (see native.clvmr)'
+
+    def vectors(self, case, rnd):
+        na = count_a(case['prog'])
+        ne = count_leaves(case['env'])
+        return [dict(atoms=[rnd.choice(ALPHABET) for _ in range(na)], env=[[rnd.choice([0, 1, 2, 0x7f, 0x80, 0xff])] for _ in range(ne)])
+                for _ in range(3)]
+
+    def witness_classes(self, case, inp, out):
+        return [('consensus_ok', z3.BoolVal(out['cons'].variant == 'Ok')), ('consensus_err', z3.BoolVal(out['cons'].variant != 'Ok'))]
+
+    def required_witnesses(self, tier):
+        return ['consensus_ok', 'consensus_err']
+
+    @staticmethod
+    def has_pair_head(lsh):
+        if not isinstance(lsh, list):
+            return False
+        return isinstance(lsh[0], list) or CoreEval.has_pair_head(lsh[0]) or CoreEval.has_pair_head(lsh[1])
+
+    classes = {
+        # F7: ((X) . operands) — a pair in operator position
+        'pair_in_operator_position': lambda case, inp: z3.BoolVal(CoreEval.has_pair_head(case['prog'])),
+    }
